@@ -26,11 +26,12 @@ EDIT_COMMIT = ("edit", "ckpt", "commit_all")
 PARTIAL = ("edit", "ckpt", "add", "add_hunk", "add_lines", "commit_all", "commit_staged", "commit_paths")
 DESTRUCTIVE = ("edit", "ckpt", "commit_all", "reset_hard", "reset_keep", "checkout_paths", "restore", "stash")
 CARRY = ("edit", "ckpt", "commit_all", "reset_keep", "stash")
-DECORATED = ("edit", "ckpt", "commit_all", "readonly", "ckpt_repeat")
+DECORATED = ("edit", "ckpt", "commit_all", "readonly", "ckpt_repeat", "dryrun")
 AMEND = ("edit_ins", "edit_del", "ckpt", "commit_all", "amend")
 REWRITE = ("edit_ins", "ckpt", "commit_all", "branch", "switch", "rebase", "cherry", "squash")
 IREBASE = ("edit_ins", "ckpt", "commit_all", "branch", "switch", "irebase", "cherry_many")
 CONFLICT = ("edit_ins", "ckpt", "commit_all", "branch", "switch", "conflict")
+HUNKS = ("burst", "edit_ins", "ckpt", "add_hunk", "add_lines", "commit_staged", "commit_all")
 MIXED = ("edit", "ckpt", "add", "commit_all", "commit_staged", "reset_keep", "stash", "checkout_paths")
 
 PLANS = {
@@ -43,6 +44,9 @@ PLANS = {
                  budget=120, variants=RENDERS_C01),
         ],
         "thorough": [
+            # the design with every named deviation removed: the clauses are plain invariants of the specification
+            dict(name="design", consts=consts(alphabet=EDIT_COMMIT + PARTIAL[3:], steps=6, lines=3, commits=3, dev=()),
+                 invariants=G_ALL, model_only=True, timeout=2400),
             dict(name="base", consts=consts(alphabet=EDIT_COMMIT, steps=6), invariants=G_ALL, budget=2500,
                  variants=RENDERS_C01, per_tag=4, timeout=1800),
             dict(name="unborn", consts=consts(alphabet=EDIT_COMMIT, steps=6, init="unborn", uid=5), invariants=G_ALL,
@@ -74,6 +78,11 @@ PLANS = {
                  variants=RENDERS[:3], per_tag=1),
         ],
         "thorough": [
+            dict(name="design", consts=consts(alphabet=CARRY + ("amend",), steps=6, lines=3, commits=3, dev=()),
+                 invariants=G_ALL, model_only=True, timeout=2400),
+            dict(name="design-rewrite", consts=consts(files=("f", "g"), alphabet=IREBASE + ("rebase", "cherry", "conflict"),
+                                                      steps=9, commits=8, uid=5, lines=4, sessions=("S1",), dev=()),
+                 invariants=G_ALL, model_only=True, timeout=2400),
             dict(name="conflicts", consts=consts(files=("f", "g"), alphabet=CONFLICT + ("edit_del",), steps=10, commits=7,
                                                  uid=5, lines=4, sessions=("S1",)), invariants=G_ALL, budget=1500,
                  variants=RENDERS, per_tag=3, timeout=3000, workers=12),
@@ -101,6 +110,8 @@ PLANS = {
                  invariants=G_ALL, budget=320, variants=RENDERS[:4]),
         ],
         "thorough": [
+            dict(name="design", consts=consts(alphabet=DESTRUCTIVE, steps=6, commits=3, lines=3, dev=()),
+                 invariants=G_ALL, model_only=True, timeout=2400),
             dict(name="destructive", consts=consts(alphabet=DESTRUCTIVE, steps=7, commits=3, lines=3),
                  invariants=G_ALL, budget=3000, variants=RENDERS, per_tag=3, timeout=2400),
             dict(name="destructive2f", consts=consts(files=("f", "g"), alphabet=DESTRUCTIVE, steps=6, commits=3,
@@ -115,7 +126,16 @@ PLANS = {
         "clauses": ["C02_Carried", "C01_OnlyAdded", "C03_Notes"],
         "quick": [
             dict(name="partial", consts=consts(alphabet=PARTIAL, steps=6, commits=3, lines=3), invariants=G_ALL,
-                 budget=320, variants=RENDERS[:4]),
+                 budget=260, variants=RENDERS[:4]),
+            # several separate insertion hunks in one file (an agent inserting at two or three places at once),
+            # staged by hunk or by line, committed in two steps
+            dict(name="hunks", consts=consts(alphabet=HUNKS, steps=6, commits=3, lines=6, uid=6, sessions=("S1",), base=3),
+                 invariants=G_ALL, budget=200, variants=[("plain", "plain"), ("crlf", "spaces"), ("multibyte", "plain")],
+                 per_tag=2, require_action=("Stage",)),
+            dict(name="hunks2", consts=consts(alphabet=("burst2", "ckpt", "add_hunk", "add_lines", "commit_staged", "commit_all"),
+                                              steps=5, commits=3, lines=9, uid=9, sessions=("S1",), base=3),
+                 invariants=G_ALL, budget=220, variants=[("plain", "plain"), ("crlf", "spaces")], per_tag=2,
+                 require_action=("Stage",)),
         ],
         "thorough": [
             dict(name="partial", consts=consts(alphabet=PARTIAL, steps=7, commits=3, lines=4), invariants=G_ALL,
@@ -196,10 +216,9 @@ INTERHUNK = [{"gitconfig": {"diff.interHunkContext": "5", "diff.context": "3"}}]
 PLANS["C12"] = {
     "clauses": TWIN_EQ,
     "quick": [
-        dict(name="interhunk", consts=consts(alphabet=("edit_ins", "ckpt", "add_lines", "add_hunk", "commit_staged",
-                                                       "commit_all"), steps=6, commits=3, uid=5, lines=5,
-                                             sessions=("S1",)), invariants=[], budget=160,
-             variants=[("plain", "plain")], twins=INTERHUNK, per_tag=1),
+        dict(name="interhunk", consts=consts(alphabet=HUNKS, steps=6, commits=3, lines=6, uid=6, sessions=("S1",), base=3),
+             invariants=[], budget=200, variants=[("plain", "plain")], twins=INTERHUNK, per_tag=2,
+             require_action=("Stage",)),
         dict(name="commit", consts=consts(files=("f", "g"), alphabet=PARTIAL, steps=5, commits=3, uid=4, lines=3),
              invariants=[], budget=120, variants=[("plain", "unicode"), ("plain", "spaces"), ("crlf", "subdir")],
              twins=GITCFG_TWINS),
